@@ -505,7 +505,7 @@ class Finding:
 
 def split_rt(ans):
     """'ok <hex> <tree> <hex2>' -> (status, hex, tree text, hex2); an empty encoding is an empty word"""
-    if not ans.startswith(("ok ", "toobig ", "alias ", "encalias ", "pmarshal ")):
+    if not ans.startswith(("ok ", "toobig ", "alias ", "shared ", "encalias ", "pmarshal ")):
         return (ans.split(" ")[0] if ans else "none"), None, None, None
     st, rest = ans.split(" ", 1)
     a = rest.find("(")
@@ -621,6 +621,11 @@ def evaluate(L, W, cases, pid, use_oracle=True):
                 F(Finding("roundtrip-aliases-input:%s:%s" % (nm, path), "%s: the value UnmarshalBinary yields is a view onto its input, not a value: after the caller "
                           "overwrote the input buffer (as a receive loop does with the next message) the decoded value differs from the original at %s and "
                           "re-encodes to %s" % (nm, path, "other bytes" if ghex2 != ghex else "the same bytes")))
+            elif st == "shared":
+                path = _diff_path(L, cs, gtree) or "<state-left-by-earlier-decodes>"
+                F(Finding("roundtrip-shares-memory:%s:%s" % (nm, path), "%s: decoded values do not own their memory: the same encoding was decoded twice, the first "
+                          "value was then edited in place (as its consumer may), and the second value — or a third decode of the same bytes — no longer equals "
+                          "the original at %s: decoding depends on what happened to an earlier decoded value" % (nm, path)))
             elif st not in ("ok", "encalias", "pmarshal"):
                 what = {"err": "returned an error", "panic": "panicked", "died": "killed the worker (crash or hang)",
                         "hang": "did not return within the watchdog time (hang)", "skipped": "was skipped after too many hangs"}.get(st, st)
@@ -703,6 +708,14 @@ def evaluate(L, W, cases, pid, use_oracle=True):
                     ("dec-ref-aliases-input:%s:%s" if pid == "C02" else "roundtrip-aliases-input:%s:%s") % (nm, path),
                     "%s: what Go's decoder yields for the conformant (reference) encoding is a view onto its input, not the value it denotes: after the "
                     "caller overwrote the input buffer (as a receive loop does with the next message) it differs from that value at %s" % (nm, path), True))
+                continue
+            if a.startswith("shared "):
+                path = _diff_path(L, cs, a[7:]) or "<state-left-by-earlier-decodes>"
+                findings[i].append(Finding(
+                    ("dec-ref-shares-memory:%s:%s" if pid == "C02" else "roundtrip-shares-memory:%s:%s") % (nm, path),
+                    "%s: what Go's decoder yields for the conformant (reference) encoding does not own its memory: the same bytes were decoded twice, the first "
+                    "value was edited in place (as its consumer may), and the second value — or a third decode of the same bytes — is no longer the value the "
+                    "encoding denotes (differs at %s): decoding depends on what happened to an earlier decoded value" % (nm, path), True))
                 continue
             path = _diff_path(L, cs, a[3:]) if a.startswith("ok ") else a.split(" ")[0]
             findings[i].append(Finding(
@@ -811,7 +824,7 @@ def pick_pairs(L, cases, obs, seed, per_container):
     import random
     per = collections.OrderedDict()
     for cs, o in zip(cases, obs):
-        if cs["wf"] and o.get("go") in ("ok", "alias") and cs["size"] <= 4096 and len(cs["tree"]) <= 12000:
+        if cs["wf"] and o.get("go") in ("ok", "alias", "shared") and cs["size"] <= 4096 and len(cs["tree"]) <= 12000:
             per.setdefault(cs["name"], []).append(cs)
     out = []
     for nm, lst in per.items():
@@ -908,7 +921,18 @@ def value_semantics_step(L, W, pairs, pid, use_oracle=True):
         nm = a["name"]
         if g != "skipped":
             sig = what = None
-            if g.startswith("ok ") and "\t" in g:
+            if g.startswith("shared ") and "\t" in g:
+                stats["changed"] += 1
+                tb = g[7:].split("\t", 1)[1]
+                try:
+                    path = tree_diff(L, L.by_cid[b["cid"]], G.parse(b["tree"]), G.parse(tb))
+                except Exception:
+                    path = "<unparsable>"
+                sig = "value-shares-memory:%s:%s" % (nm, path)
+                what = ("%s: two messages decoded one after the other; the consumer of the FIRST edits its value in place; the second decoded value — or a fresh "
+                        "decode of the second encoding — then differs from the second message at %s: decoded values share memory with each other or with "
+                        "something the library keeps" % (nm, path))
+            elif g.startswith("ok ") and "\t" in g:
                 ta, tb = g[3:].split("\t", 1)
                 if ta == a["tree"] and tb == b["tree"]:
                     stats["first_value_unchanged"] += 1
